@@ -394,7 +394,7 @@ class Call0Relocation(Relocation):
         s = sym_value >> 2
         r = (reloc_value & 0xFFFFFFFC) >> 2
         offset = s - (r + 1)
-        # assert offset in range(-524284, 524288), str(offset)
+        assert offset in range(-131072, 131072), str(offset)
         # TODO: this wrap_negative is somewhat weird
         return wrap_negative(offset, 18)
 
